@@ -910,7 +910,16 @@ def check_token_agreement(ctx):
     C10.check_token(ctx, "C02.token-agreement")
 
 
+def check_record_fit(ctx):
+    """what the writer admits, stamps and acknowledges, recovery must parse: admission bound, header-fit bound and the field
+    layout of writer and reader agree (same rule as C10.record). A record that fills its head block exactly is acknowledged and
+    then makes every later open fail."""
+    from rules import C10
+    C10.check_record(ctx, "C02.record-fit")
+
+
 def check(ctx):
+    check_record_fit(ctx)
     check_token_agreement(ctx)
     check_partition(ctx)
     check_recovery_release_len(ctx)
